@@ -362,7 +362,8 @@ Definition scopes_rel (s s' : list scope) : Prop :=
   end.
 Definition inv (c c' : pctx) : Prop :=
   px_estack c' = px_estack c /\ scopes_rel (px_scopes c) (px_scopes c') /\
-  (px_depth N ES c' - px_over N ES c' = px_depth N ES c - px_over N ES c)%Z /\ (px_over N ES c <= px_over N ES c')%Z.
+  (px_depth N ES c' - px_over N ES c' = px_depth N ES c - px_over N ES c)%Z /\ (px_over N ES c <= px_over N ES c')%Z /\
+  px_cfg c' = px_cfg c.
 
 Lemma scopes_rel_refl s : scopes_rel s s.
 Proof. destruct s; cbn; [now left | eauto]. Qed.
@@ -373,14 +374,18 @@ Proof.
   - intros [t ->] [t' ->]. eauto.
 Qed.
 Lemma inv_refl c : inv c c.
-Proof. repeat split; auto using scopes_rel_refl; lia. Qed.
+Proof. unfold inv. split; [reflexivity|]. split; [apply scopes_rel_refl|]. split; [lia|]. split; [lia | reflexivity]. Qed.
 Lemma inv_trans a b0 c : inv a b0 -> inv b0 c -> inv a c.
 Proof.
-  intros (H1 & H2 & H3 & H4) (G1 & G2 & G3 & G4). repeat split; [congruence | eapply scopes_rel_trans; eauto | lia | lia].
+  intros (H1 & H2 & H3 & H4 & H5) (G1 & G2 & G3 & G4 & G5).
+  split; [congruence|]. split; [eapply scopes_rel_trans; eauto|]. split; [lia|]. split; [lia | congruence].
 Qed.
 Lemma inv_l_only c c' : px_estack c' = px_estack c -> px_scopes c' = px_scopes c ->
-  px_depth N ES c' = px_depth N ES c -> px_over N ES c' = px_over N ES c -> inv c c'.
-Proof. intros H1 H2 H3 H4. unfold inv. rewrite H1, H2, H3, H4. repeat split; auto using scopes_rel_refl; lia. Qed.
+  px_depth N ES c' = px_depth N ES c -> px_over N ES c' = px_over N ES c -> px_cfg c' = px_cfg c -> inv c c'.
+Proof.
+  intros H1 H2 H3 H4 H5. unfold inv. rewrite H1, H2, H3, H4, H5.
+  split; [reflexivity|]. split; [apply scopes_rel_refl|]. split; [lia|]. split; [lia | reflexivity].
+Qed.
 Lemma inv_with_l c l : inv c (with_l c l).
 Proof. apply inv_l_only; reflexivity. Qed.
 Lemma inv_update_element c e : inv c (update_element c e).
@@ -389,7 +394,7 @@ Lemma inv_set_prev c e : inv c (set_prev c e).
 Proof. apply inv_l_only; reflexivity. Qed.
 Lemma inv_set_var c k v : inv c (with_scopes c (set_var (px_scopes c) k v) (px_estack c)).
 Proof.
-  unfold inv. cbn. repeat split; try lia. unfold set_var. destruct (px_scopes c); cbn; eauto.
+  unfold inv. cbn. split; [reflexivity|]. split; [unfold set_var; destruct (px_scopes c); cbn; eauto|]. split; [lia|]. split; [lia | reflexivity].
 Qed.
 
 Definition pres {A} (m : pctx -> R A) : Prop := forall c r c', m c = (r, c') -> inv c c'.
@@ -445,7 +450,7 @@ Qed.
 Lemma gen_var_inv : forall l newv, pres (gen_var l newv).
 Proof.
   induction l as [|[k v] l IH]; intros newv; cbn [Pipeline.gen_var].
-  - intros c r c' H. injection H as <- <-. unfold inv. cbn. repeat split; try lia. apply fold_set_var_rel.
+  - intros c r c' H. injection H as <- <-. unfold inv. cbn. split; [reflexivity|]. split; [apply fold_set_var_rel|]. split; [lia|]. split; [lia | reflexivity].
   - destruct (String.eqb k "_" || String.eqb k "__")%bool; [apply IH|].
     apply (pres_rbind (fun c => eval_attr c v)); [apply eval_attr_inv|]. intros a c r c' H.
     destruct (_ <? _)%Z; [injection H as <- <-; apply inv_refl | eapply IH; exact H].
@@ -473,8 +478,8 @@ Proof. apply pres_presd, pres_ret. Qed.
 (* push / run / pop restores the stacks exactly *)
 Lemma inv_push_pop c e c3 : inv (push_element c e) c3 -> inv c (pop_element c3).
 Proof.
-  intros (H1 & H2 & H3 & H4). unfold inv, pop_element, push_element in *. cbn in *.
-  destruct H2 as [top' H2]. rewrite H1, H2. cbn. repeat split; auto using scopes_rel_refl.
+  intros (H1 & H2 & H3 & H4 & H5). unfold inv, pop_element, push_element in *. cbn in *.
+  destruct H2 as [top' H2]. rewrite H1, H2. cbn. split; [reflexivity|]. split; [apply scopes_rel_refl|]. split; [lia|]. split; [lia | exact H5].
 Qed.
 Lemma nn_push c e : nn c -> nn (push_element c e).
 Proof. exact (fun H => H). Qed.
@@ -499,7 +504,7 @@ Lemma inc_depth_spec c r c1 : inc_depth c = (r, c1) ->
 Proof.
   unfold inc_depth. destruct (_ <? _)%Z; intros H; injection H as <- <-.
   - split; [reflexivity|]. split; [reflexivity|]. unfold inv. cbn [px_estack px_scopes px_depth px_over with_over with_depth].
-    split; [reflexivity|]. split; [apply scopes_rel_refl|]. split; lia.
+    split; [reflexivity|]. split; [apply scopes_rel_refl|]. split; [lia|]. split; [lia | reflexivity].
   - split; [reflexivity|]. split; [reflexivity|]. split; reflexivity.
 Qed.
 
@@ -517,12 +522,15 @@ Proof.
       destruct S3 as (D1 & O1).
       destruct (dispatch f e kids c1) as [rd c2] eqn:Ed.
       assert (Hn1 : nn c1) by (unfold nn in *; lia).
-      pose proof (Idisp _ _ _ _ _ Hn1 Ed) as (A1 & A2 & A3 & A4).
+      pose proof (Idisp _ _ _ _ _ Hn1 Ed) as (A1 & A2 & A3 & A4 & A5).
       assert (Hpos : (0 <? px_depth N ES c2)%Z = true) by (apply Z.ltb_lt; unfold nn in *; lia).
       unfold Pipeline.dec_depth in H. rewrite Hpos in H.
       set (c3 := with_depth N ES c2 (px_depth N ES c2 - 1)%Z) in *.
       assert (I3 : inv c c3).
-      { unfold inv, c3. cbn. rewrite A1, S1. rewrite S2 in A2. repeat split; auto; lia. }
+      { unfold inv, c3. cbn. rewrite A1, S1. rewrite S2 in A2.
+        assert (Hcfg : px_cfg c1 = px_cfg c).
+        { clear - Ei. unfold Pipeline.inc_depth in Ei. destruct (_ <? _)%Z in Ei; [discriminate|]. injection Ei as _ <-. reflexivity. }
+        split; [reflexivity|]. split; [exact A2|]. split; [lia|]. split; [lia | congruence]. }
       destruct rd as [[ev b]| | |]; try (injection H as <- <-; exact I3).
       destruct (clip c3 e b) as [[b'| | |] l]; injection H as <- <-;
         (eapply inv_trans; [exact I3 | apply inv_with_l]).
@@ -773,5 +781,194 @@ Proof.
   destruct (U (with_cbb N e cb) (with_cbb N e cb)) as (U1 & U2).
   destruct (String.eqb (ename N e) "symbol"); [injection H as <- <-; split; congruence|].
   destruct (el_bbox_of _); injection H as <- <-; split; congruence.
+Qed.
+
+(* ================= limits (C17) ================= *)
+Definition limit_of (c : pctx) : Z := c_depth_limit (px_cfg c).
+
+(* an element is rejected for depth at its own entry exactly when the counter would exceed the limit *)
+Theorem gen_depth_exceeded f e kids c : (limit_of c < px_depth N ES c + 1)%Z ->
+  fst (gen (S f) e kids c) = Err EDepthLimit.
+Proof.
+  intros H. rewrite gen_S. unfold Pipeline.inc_depth. apply Z.ltb_lt in H. unfold limit_of in H. rewrite H. reflexivity.
+Qed.
+Theorem gen_depth_within f e kids c : (px_depth N ES c + 1 <= limit_of c)%Z ->
+  gen (S f) e kids c =
+  (let c1 := with_depth N ES c (px_depth N ES c + 1)%Z in
+   let '(r, c2) := dispatch f e kids c1 in
+   match dec_depth c2 with
+   | (Ok _, c3) => match r with
+                   | Ok (ev, b) => match clip c3 e b with
+                                   | (Ok b', l) => (Ok (ev, b'), with_l c3 l)
+                                   | (Err k, l) => (Err k, with_l c3 l) | (Panic s, l) => (Panic s, with_l c3 l)
+                                   | (OutOfFuel, l) => (OutOfFuel, with_l c3 l) end
+                   | _ => (r, c3) end
+   | (Err k, c3) => (Err k, c3) | (Panic s, c3) => (Panic s, c3) | (OutOfFuel, c3) => (OutOfFuel, c3) end).
+Proof.
+  intros H. rewrite gen_S. unfold Pipeline.inc_depth. unfold limit_of in H.
+  assert (E : (c_depth_limit (px_cfg c) <? px_depth N ES c + 1)%Z = false) by (apply Z.ltb_ge; lia).
+  rewrite E. reflexivity.
+Qed.
+(* depth is nesting, not length: without a depth failure the counter is the same for every sibling of a level *)
+Theorem siblings_same_depth fuel pending c pr c' : nn c -> pass fuel pending c = (pr, c') ->
+  px_over N ES c' = px_over N ES c -> px_depth N ES c' = px_depth N ES c.
+Proof.
+  intros Hn H Ho. destruct (all_inv fuel) as (_ & _ & _ & _ & Ip & _). destruct (Ip _ _ _ _ Hn H) as (_ & _ & Hd & _). lia.
+Qed.
+
+(* loops: rejected exactly when more than loop-limit passes are asked for *)
+Definition llimit (c : pctx) : Z := c_loop_limit (px_cfg c).
+Definition body_no_looplimit (ks : list node) : Prop :=
+  forall f c r c', process_events f ks c = (r, c') -> r <> Err ELoopLimit.
+Definition body_ok (F0 : nat) (ks : list node) : Prop :=
+  forall f c, nn c -> (F0 <= f)%nat -> exists ev b c', process_events f ks c = (Ok (ev, b), c').
+
+Theorem loop_limit_not_spurious : forall fuel ex cnt nm st ks it v acc bb c r c',
+  nn c -> body_no_looplimit ks -> (cnt <= llimit c)%Z ->
+  loop_iter fuel 0 ex cnt nm st ks it v acc bb c = (r, c') -> r <> Err ELoopLimit.
+Proof.
+  induction fuel as [|f IH]; intros ex cnt nm st ks it v acc bb c r c' Hn Hb Hc H.
+  - cbn in H. injection H as <- <-. discriminate.
+  - rewrite loop_iter_S in H. cbv zeta in H. unfold Pipeline.rbind in H. cbn [negb] in H.
+    destruct (it <? cnt)%Z eqn:Eg; cbn [negb] in H; [|injection H as <- <-; discriminate].
+    set (c2 := if nonempty nm then with_scopes c (set_var (px_scopes c) nm (f64_to_string v)) (px_estack c) else c) in *.
+    assert (I2 : inv c c2) by (unfold c2; destruct (nonempty nm); [apply inv_set_var | apply inv_refl]).
+    destruct (process_events f ks c2) as [[[ev b]|k|s|] c3] eqn:Ep; try (injection H as <- <-; first [discriminate | exact (Hb _ _ _ _ Ep)]).
+    pose proof (process_events_frame _ _ _ _ _ (inv_nn _ _ I2 Hn) Ep) as I3.
+    assert (I : inv c c3) by (eapply inv_trans; eauto).
+    assert (Hl : llimit c3 = llimit c) by (unfold llimit; destruct I as (_ & _ & _ & _ & ->); reflexivity).
+    assert (El : (c_loop_limit (px_cfg c3) <? it + 1)%Z = false).
+    { apply Z.ltb_ge. apply Z.ltb_lt in Eg. unfold llimit in *. rewrite Hl. eapply Z.le_trans; [|exact Hc]. apply Zlt_le_succ in Eg. exact Eg. }
+    rewrite El in H. eapply IH; [eapply inv_nn; eauto | exact Hb | rewrite Hl; exact Hc | exact H].
+Qed.
+
+Theorem loop_limit_enforced : forall n fuel F0 ex cnt nm st ks it v acc bb c,
+  nn c -> body_ok F0 ks -> (llimit c < cnt)%Z -> (it <= llimit c)%Z -> n = Z.to_nat (llimit c - it) ->
+  (F0 + n + 1 <= fuel)%nat ->
+  fst (loop_iter fuel 0 ex cnt nm st ks it v acc bb c) = Err ELoopLimit.
+Proof.
+  induction n as [|n IH]; intros fuel F0 ex cnt nm st ks it v acc bb c Hn Hb Hc Hi Hnn Hf;
+    (destruct fuel as [|f]; [lia|]); rewrite loop_iter_S; cbv zeta; unfold Pipeline.rbind; cbn [negb];
+    (assert (Eg : (it <? cnt)%Z = true) by (apply Z.ltb_lt; lia)); rewrite Eg; cbn [negb];
+    set (c2 := if nonempty nm then with_scopes c (set_var (px_scopes c) nm (f64_to_string v)) (px_estack c) else c);
+    (assert (I2 : inv c c2) by (unfold c2; destruct (nonempty nm); [apply inv_set_var | apply inv_refl]));
+    (destruct (Hb f c2 (inv_nn _ _ I2 Hn) ltac:(lia)) as (ev & b & c3 & Ep)); rewrite Ep;
+    pose proof (process_events_frame _ _ _ _ _ (inv_nn _ _ I2 Hn) Ep) as I3;
+    (assert (I : inv c c3) by (eapply inv_trans; eauto));
+    (assert (Hl : llimit c3 = llimit c) by (unfold llimit; destruct I as (_ & _ & _ & _ & ->); reflexivity)).
+  - assert (El : (c_loop_limit (px_cfg c3) <? it + 1)%Z = true) by (apply Z.ltb_lt; unfold llimit in *; lia).
+    rewrite El. reflexivity.
+  - assert (El : (c_loop_limit (px_cfg c3) <? it + 1)%Z = false) by (apply Z.ltb_ge; unfold llimit in *; lia).
+    rewrite El. apply (IH f F0); [eapply inv_nn; eauto | exact Hb | lia | lia | lia | lia].
+Qed.
+
+(* <for>: rejected exactly when the list has more than loop-limit items *)
+Theorem for_limit_not_spurious : forall fuel var idxv ks items idx acc bb c r c',
+  nn c -> body_no_looplimit ks -> (idx + Z.of_nat (List.length items) <= llimit c)%Z ->
+  for_iter fuel var idxv ks items idx acc bb c = (r, c') -> r <> Err ELoopLimit.
+Proof.
+  induction fuel as [|f IH]; intros var idxv ks items idx acc bb c r c' Hn Hb Hc H.
+  - cbn in H. injection H as <- <-. discriminate.
+  - rewrite for_iter_S in H. cbv zeta in H. destruct items as [|it rest]; [injection H as <- <-; discriminate|].
+    set (ss := match idxv with Some iv => set_var (set_var (px_scopes c) var it) iv (int_str idx) | None => set_var (px_scopes c) var it end) in *.
+    set (c1 := with_scopes c ss (px_estack c)) in *.
+    assert (I1 : inv c c1).
+    { unfold c1, ss. destruct idxv.
+      - eapply inv_trans; [apply (inv_set_var c var it)|]. apply (inv_set_var (with_scopes c (set_var (px_scopes c) var it) (px_estack c))).
+      - apply inv_set_var. }
+    unfold Pipeline.rbind in H.
+    destruct (process_events f ks c1) as [[[ev b]|k|s|] c2] eqn:Ep; try (injection H as <- <-; first [discriminate | exact (Hb _ _ _ _ Ep)]).
+    pose proof (process_events_frame _ _ _ _ _ (inv_nn _ _ I1 Hn) Ep) as I2.
+    assert (I : inv c c2) by (eapply inv_trans; eauto).
+    assert (Hl : llimit c2 = llimit c) by (unfold llimit; destruct I as (_ & _ & _ & _ & ->); reflexivity).
+    cbn [List.length] in Hc.
+    assert (El : (c_loop_limit (px_cfg c2) <? idx + 1)%Z = false) by (apply Z.ltb_ge; unfold llimit in *; lia).
+    rewrite El in H. eapply IH; [eapply inv_nn; eauto | exact Hb | | exact H]. lia.
+Qed.
+Theorem for_limit_enforced : forall items fuel F0 var idxv ks idx acc bb c,
+  nn c -> body_ok F0 ks -> (0 <= idx)%Z -> (llimit c < idx + Z.of_nat (List.length items))%Z -> (idx <= llimit c)%Z ->
+  (F0 + List.length items + 1 <= fuel)%nat ->
+  fst (for_iter fuel var idxv ks items idx acc bb c) = Err ELoopLimit.
+Proof.
+  induction items as [|it rest IH]; intros fuel F0 var idxv ks idx acc bb c Hn Hb H0 Hc Hi Hf.
+  - cbn in Hc. lia.
+  - destruct fuel as [|f]; [cbn in Hf; lia|]. rewrite for_iter_S. cbv zeta.
+    set (ss := match idxv with Some iv => set_var (set_var (px_scopes c) var it) iv (int_str idx) | None => set_var (px_scopes c) var it end).
+    set (c1 := with_scopes c ss (px_estack c)).
+    assert (I1 : inv c c1).
+    { unfold c1, ss. destruct idxv.
+      - eapply inv_trans; [apply (inv_set_var c var it)|]. apply (inv_set_var (with_scopes c (set_var (px_scopes c) var it) (px_estack c))).
+      - apply inv_set_var. }
+    unfold Pipeline.rbind. cbn [List.length] in Hf, Hc.
+    destruct (Hb f c1 (inv_nn _ _ I1 Hn) ltac:(lia)) as (ev & b & c2 & Ep). rewrite Ep.
+    pose proof (process_events_frame _ _ _ _ _ (inv_nn _ _ I1 Hn) Ep) as I2.
+    assert (I : inv c c2) by (eapply inv_trans; eauto).
+    assert (Hl : llimit c2 = llimit c) by (unfold llimit; destruct I as (_ & _ & _ & _ & ->); reflexivity).
+    destruct (c_loop_limit (px_cfg c2) <? idx + 1)%Z eqn:El; [reflexivity|].
+    apply Z.ltb_ge in El. apply (IH f F0); [eapply inv_nn; eauto | exact Hb | lia | unfold llimit in *; lia | unfold llimit in *; lia | lia].
+Qed.
+
+(* <var>: a value longer than var-limit is rejected, and nothing else is (as far as this element goes) *)
+Theorem var_limit_enforced k v r newv c v' c1 :
+  (String.eqb k "_" || String.eqb k "__")%bool = false -> eval_attr c v = (Ok v', c1) ->
+  (c_var_limit (px_cfg c1) < Z.of_nat (String.length v'))%Z ->
+  gen_var ((k, v) :: r) newv c = (Err EVarLimit, c1).
+Proof.
+  intros Hk He Hl. cbn [Pipeline.gen_var]. rewrite Hk. unfold Pipeline.rbind. rewrite He.
+  apply Z.ltb_lt in Hl. rewrite Hl. reflexivity.
+Qed.
+Theorem var_limit_not_spurious : forall l newv c c',
+  (forall c0 v r0 c1, eval_attr c0 v = (r0, c1) -> r0 <> Err EVarLimit) ->
+  gen_var l newv c = (Err EVarLimit, c') ->
+  exists k v c0 v' c1, In (k, v) l /\ eval_attr c0 v = (Ok v', c1) /\ (c_var_limit (px_cfg c1) < Z.of_nat (String.length v'))%Z.
+Proof.
+  induction l as [|[k v] l IH]; intros newv c c' He H; cbn [Pipeline.gen_var] in H; [discriminate|].
+  destruct (String.eqb k "_" || String.eqb k "__")%bool.
+  - destruct (IH _ _ _ He H) as (k0 & v0 & c0 & v' & c1 & Hin & E & L). exists k0, v0, c0, v', c1. split; [now right | auto].
+  - unfold Pipeline.rbind in H. destruct (eval_attr c v) as [[a|k1|s|] c1] eqn:E; try discriminate.
+    + destruct (c_var_limit (px_cfg c1) <? Z.of_nat (String.length a))%Z eqn:L.
+      * exists k, v, c, a, c1. split; [now left|]. split; [exact E | now apply Z.ltb_lt].
+      * destruct (IH _ _ _ He H) as (k0 & v0 & c0 & v' & c2 & Hin & E2 & L2). exists k0, v0, c0, v', c2. split; [now right | auto].
+    + injection H as -> _. exfalso. exact (He _ _ _ _ E eq_refl).
+Qed.
+
+(* ================= retry (C10 / C01) ================= *)
+(* a pass never adds pending elements: what remains is a sub-sequence of what was pending *)
+Inductive subseq {A} : list A -> list A -> Prop :=
+| ss_nil : subseq [] []
+| ss_skip x l l' : subseq l l' -> subseq l (x :: l')
+| ss_keep x l l' : subseq l l' -> subseq (x :: l) (x :: l').
+Lemma subseq_refl {A} (l : list A) : subseq l l.
+Proof. induction l; [constructor | apply ss_keep; assumption]. Qed.
+Lemma subseq_length {A} (l l' : list A) : subseq l l' -> (List.length l <= List.length l')%nat.
+Proof. induction 1; cbn; lia. Qed.
+Lemma pass_remaining : forall fuel pending c pr c', pass fuel pending c = (pr, c') -> subseq (pr_rem pr) pending.
+Proof.
+  induction fuel as [|f IH]; intros pending c pr c' H.
+  - cbn in H. injection H as <- <-. apply subseq_refl.
+  - rewrite pass_S in H. cbv zeta in H. destruct pending as [|[i t] r0]; [injection H as <- <-; constructor|].
+    destruct (gen_tag f t _) as [res1 c1].
+    destruct (px_specs c1); [apply ss_skip; eapply IH; eauto|].
+    destruct res1 as [[ev b]|k|s|].
+    + destruct (pass f r0 c1) as [pr2 c2] eqn:Ep. injection H as <- <-. cbn. apply ss_skip. eapply IH; eauto.
+    + destruct (is_fatal k); [injection H as <- <-; apply subseq_refl|].
+      destruct (pass f r0 c1) as [pr2 c2] eqn:Ep. injection H as <- <-. cbn. apply ss_keep. eapply IH; eauto.
+    + injection H as <- <-. apply subseq_refl.
+    + injection H as <- <-. apply subseq_refl.
+Qed.
+(* the retry loop needs at most as many passes as there are pending elements: the pass budget is never the
+   reason for running out (the pending set strictly shrinks or the loop stops) *)
+Theorem retry_pass_budget : forall fuel passes pending out bb c r c',
+  (List.length pending <= passes)%nat -> retry (S fuel) passes pending out bb c = (r, c') ->
+  r = OutOfFuel -> fuel = 0%nat \/ exists p2 pend2 out2 bb2 c2, (List.length pend2 <= p2)%nat /\ (List.length pend2 < List.length pending)%nat /\
+                                  retry fuel p2 pend2 out2 bb2 c2 = (r, c').
+Proof.
+  intros fuel passes pending out bb c r c' Hl H Hr. rewrite retry_S in H. cbv zeta in H.
+  destruct pending as [|x pend']; [injection H as <- <-; discriminate|].
+  destruct (pass fuel (x :: pend') c) as [pr c1] eqn:Ep. pose proof (subseq_length _ _ (pass_remaining _ _ _ _ _ Ep)) as Hs.
+  destruct (pr_fatal pr); [injection H as <- <-; discriminate|].
+  destruct (Nat.eqb _ _) eqn:En; [injection H as <- <-; discriminate|]. apply Nat.eqb_neq in En.
+  destruct passes as [|p']; [cbn in Hl; lia|].
+  right. exists p', (pr_rem pr), (out ++ pr_out pr)%list, (bb_opt_union bb (pr_bb pr)), c1. repeat split; [lia | lia | exact H].
 Qed.
 End P.
